@@ -157,7 +157,9 @@ Section Check.
     if nm then
       let S := sumQ (map (fun p => inject_Z (colsum p t)) srcs) in
       let B := sumQ (map (fun p => inject_Z (colsum p t)) bases) in
-      ((ssum * (B / S) - bsum)%Q, (tol + inject_Z (n_samples_of srcs) / 2 + (1 # 1000))%Q)
+      (* Normalize rounds each (merged) source sample once: half a unit per sample that counts for e *)
+      let cnt := Z.of_nat (List.length (flat_map (fun p => filter (sel p e) (p_sample p)) srcs)) in
+      ((ssum * (B / S) - bsum)%Q, (tol + inject_Z cnt / 2 + (1 # 1000))%Q)
     else ((ssum - bsum)%Q, tol).
 
   Definition norm_degenerate (t : string) : bool :=
